@@ -276,6 +276,9 @@ def run(ctx):
     if not getattr(ctx, "harness_ok", False):
         ctx.broken("harness does not build against the current tree", detail="\n".join(ctx.build_errors))
 
+    ctx.dependency("C03", "'a Service with no such endpoint answers 503 rather than keeping old servers' needs the generated "
+                          "upstream/stream configuration to load: every upstream a server or map names is defined by the same file set")
+
     ctx.finish({
         "evaluations": st.n,
         "distinct_nontrivial": len(st.nontrivial),
